@@ -47,6 +47,7 @@
 #include <string>
 #include <vector>
 #include <algorithm>
+#include <setjmp.h>
 
 #ifndef C14_PART
 #define C14_PART 1
@@ -55,14 +56,14 @@
 namespace {
 
 // ---------------------------------------------------------------------------------------------------------- shapes
-struct Shape { int n; int len[4]; int total; bool zl; char str[24]; };
+struct Shape { int n; int len[4]; int total; bool zl; char str[24]; bool null; };   // null: the default-constructed iovector_view (iov == nullptr, iovcnt == 0)
 
 static std::vector<Shape> make_shapes(int maxn, int maxlen) {
     std::vector<Shape> v;
     for (int n = 0; n <= maxn; n++) {
         int combos = 1; for (int i = 0; i < n; i++) combos *= (maxlen + 1);
         for (int code = 0; code < combos; code++) {
-            Shape s; s.n = n; s.total = 0; s.zl = false; int cc = code;
+            Shape s; s.n = n; s.total = 0; s.zl = false; s.null = false; int cc = code;
             for (int i = 0; i < 4; i++) s.len[i] = 0;
             for (int i = n - 1; i >= 0; i--) { s.len[i] = cc % (maxlen + 1); cc /= (maxlen + 1); }
             char* p = s.str; *p++ = '[';
@@ -74,6 +75,7 @@ static std::vector<Shape> make_shapes(int maxn, int maxlen) {
     return v;
 }
 static std::vector<Shape> g_shapes;                 // all shapes n<=4, len<=3, ordered by n then lexicographically
+static const Shape g_null = {0, {0, 0, 0, 0}, 0, false, "{nullptr,0}", true};
 static const Shape* find_shape(const char* str) { for (auto& s : g_shapes) if (!strcmp(s.str, str)) return &s; abort(); }
 
 // ---------------------------------------------------------------------------------------------------------- arena
@@ -418,7 +420,8 @@ static bool apply(Env& e, T& o, std::string& M, const Op& op, uint64_t& rel)
     case K_CPY_TO_IOV: case K_CPY_FROM_IOV: case K_PIPE_TO_IOV: case K_PIPE_FROM_IOV: {
         const Shape& ps = *op.p; const bool pvec = op.kind >= K_CPY_TO_IOV;
         std::string D; iovec tmp[4]; iovec* parr = nullptr; iovector_view pv; IOVector* pi = nullptr;
-        if (!pvec) { parr = (iovec*)A.get((ps.n + 1) * sizeof(iovec)); build_blocks(A, ps, fillbase(e.step), parr, D); parr[ps.n] = POISON; pv.assign(parr, ps.n); }
+        if (!pvec && ps.null) { /* pv stays default-constructed: iov == nullptr, iovcnt == 0 */ }
+        else if (!pvec) { parr = (iovec*)A.get((ps.n + 1) * sizeof(iovec)); build_blocks(A, ps, fillbase(e.step), parr, D); parr[ps.n] = POISON; pv.assign(parr, ps.n); }
         else { pi = A.newvec(); build_blocks(A, ps, fillbase(e.step), tmp, D); for (int i = 0; i < ps.n; i++) pi->push_back(tmp[i].iov_base, tmp[i].iov_len); }
         Snap psnap; if (pvec) psnap.take(*(iovector*)pi); else psnap.take(pv);
         const size_t Td = D.size(), ex = std::min(a, std::min(T0, Td));
@@ -561,13 +564,29 @@ static const std::vector<Op>& ops_for(Alpha& al, bool vec, int T) {
 }
 
 // ---------------------------------------------------------------------------------------------------------- cases
+// target nullview only: a SIGSEGV inside the operation is turned into an ordinary violation with its own signature
+static sigjmp_buf g_jb; static volatile int g_guard_armed = 0; static bool g_use_guard = false;
+static void segv_handler(int, siginfo_t*, void*) {
+    if (g_guard_armed) { g_guard_armed = 0; siglongjmp(g_jb, 1); }
+    signal(SIGSEGV, SIG_DFL);       // not ours: fault again with the default action, the parent classifies the crash
+}
+
 static void run_case(seqx::Ctx& c, bool vec, const Shape& s, const Op* const* ops, int nops) {
+    static const bool dry = getenv("C14_DRY") != nullptr;      // debugging aid: walk the enumeration without executing (counts the cases)
+    if (dry) return;
     Arena A; Env e{c, A, 0};
     std::string M; uint64_t cls = seqx::mix(vec, nops), rel = 0;
     iovec tmp[4];
+    if (g_use_guard) {
+        if (sigsetjmp(g_jb, 1)) {
+            c.fail("empty-null-view:segv", "SIGSEGV: the operation dereferenced the descriptor pointer of an EMPTY vector (default-constructed iovector_view: iov == nullptr, iovcnt == 0); reference: the empty byte string, result 0");
+            c.cls(seqx::mix(cls, 0x5e6)); return;
+        }
+        g_guard_armed = 1;
+    }
     if (!vec) {
-        iovec* arr = (iovec*)A.get((s.n + 1) * sizeof(iovec));        // one spare, poisoned descriptor slot (see header comment)
-        build_blocks(A, s, 'A', arr, M); arr[s.n] = POISON;
+        iovec* arr = s.null ? nullptr : (iovec*)A.get((s.n + 1) * sizeof(iovec));        // one spare, poisoned descriptor slot (see header comment)
+        if (!s.null) { build_blocks(A, s, 'A', arr, M); arr[s.n] = POISON; }
         iovector_view v(arr, s.n);
         for (int k = 0; k < nops; k++) { e.step = k; if (!apply(e, v, M, *ops[k], rel)) { cls = seqx::mix(cls, 0xbad); break; } cls = seqx::mix(cls, k == nops - 1 ? rel : (uint64_t)KGROUP[ops[k]->kind]); }
     } else {
@@ -577,6 +596,7 @@ static void run_case(seqx::Ctx& c, bool vec, const Shape& s, const Op* const* op
         iovector& o = *v;
         for (int k = 0; k < nops; k++) { e.step = k; if (!apply(e, o, M, *ops[k], rel)) { cls = seqx::mix(cls, 0xbad); break; } cls = seqx::mix(cls, k == nops - 1 ? rel : (uint64_t)KGROUP[ops[k]->kind]); }
     }
+    g_guard_armed = 0;
     c.cls(cls);
 }
 
@@ -617,6 +637,30 @@ static void seqx_enumerate(seqx::Ctx& c, bool thorough) {
     full.extra = 2; full.rooms = {0, 1, 2, 3, 4, 5}; full.slice_rooms = {0, 1, 2, 3, 4, 5}; full.slice_counts = 0;
     full.partners = pick_shapes(thorough ? 4 : 3, 3); full.size_mode = 0; full.push_sizes = {0, 1, 2, 3}; full.iov_partner_copy = true;
     enum_depth(c, full, pick_shapes(4, 3), 1);
+#elif C14_PART == 3
+    // The canonical empty view: default-constructed iovector_view (iov == nullptr, iovcnt == 0), as the subject of every
+    // operation and as the other vector of every two-vector operation.  Kept in its own target: the main targets give
+    // descriptor arrays a spare slot on purpose (the property is about the element buffers), which hides that
+    // iov_iterator's constructor reads view.iov[0] even when iovcnt == 0 - harmless with a real array, a crash with nullptr.
+    (void)thorough;
+    struct sigaction sa; memset(&sa, 0, sizeof sa); sa.sa_sigaction = segv_handler; sa.sa_flags = SA_SIGINFO | SA_NODEFER; sigaction(SIGSEGV, &sa, nullptr);
+    g_use_guard = true;
+    static Alpha an;
+    an.extra = 2; an.rooms = {0, 1}; an.slice_rooms = {0, 1}; an.slice_counts = 0;
+    for (const char* p : {"[]", "[1]", "[0,2]"}) an.partners.push_back(find_shape(p));
+    an.partners.push_back(&g_null);
+    an.size_mode = 1; an.push_sizes = {1}; an.iov_partner_copy = false;
+    const Op* seq[1];
+    for (auto& o1 : ops_for(an, false, 0)) { if (!c.begin("V shape={nullptr,0} | %s", o1.str)) continue; seq[0] = &o1; run_case(c, false, g_null, seq, 1); }
+    for (int vec = 0; vec <= 1; vec++)
+        for (const char* sh : {"[]", "[1]", "[0,2]"}) {
+            const Shape* s = find_shape(sh);
+            for (auto& o1 : ops_for(an, vec, s->total)) {
+                if (o1.p != &g_null || o1.kind >= K_CPY_TO_IOV) continue;
+                if (!c.begin("%s shape=%s | %s", vec ? "I" : "V", s->str, o1.str)) continue;
+                seq[0] = &o1; run_case(c, vec, *s, seq, 1);
+            }
+        }
 #else
     // sequences of 2 operations
     static Alpha a2;
@@ -637,6 +681,8 @@ static void seqx_enumerate(seqx::Ctx& c, bool thorough) {
 
 #if C14_PART == 1
 SEQX_MAIN("C14", "single", "every single operation of iovector_view (V) and IOVector (I) on every shape of 0..4 elements with element sizes {0,1,2,3}: sum, shrink_to, shrink_less_than, truncate, extract_front/back (discard | to buffer | to out-view with room 0..5 | to a fresh IOVector), extract_front/back_continuous, slice(count,offset,room 0..5), memcpy_to/from and pipe_to/from (flat buffer | view or IOVector of every shape with <=3 (quick) / <=4 (thorough) elements), push_back/front (buffer | allocating), pop_front/back; counts and offsets 0..total+2, sizes 0..max(total,other total)+1 and SIZE_MAX; reference = std::string of the concatenated elements; distinct = (object kind, op kind, relation of the count to the element boundaries [zero/inside/on boundary/total/beyond], room vs pieces, outcome, zero-length element present, #elements capped at 3, for two-vector ops: size vs transferable, which side is shorter, where the transfer ends in both element structures)")
+#elif C14_PART == 3
+SEQX_MAIN("C14", "nullview", "the default-constructed empty iovector_view (iov == nullptr, iovcnt == 0) as the subject of every single operation (counts 0..2, room {0,1}, other vectors {[],[1],[0,2],null}, sizes {0,1,2,3,SIZE_MAX}) and as the other vector of memcpy_to/from and pipe_to/from on V and I subjects of shapes {[],[1],[0,2]}; reference = the empty byte string; distinct = (object kind, op kind, relation class, crashed or not)")
 #else
 SEQX_MAIN("C14", "seq", "every sequence of 2 operations (first one mutating) over shapes of 0..3 (quick) / 0..4 (thorough) elements with sizes {0,1,2,3}, alphabet: counts 0..total+2, out-view room {1,2,5}, slice room {1,5}, other-vector shapes {[],[0],[1],[3],[1,2],[2,0,1],[0,1,0,3]}; thorough adds every sequence of 3 operations (first two mutating) over shapes of 0..3 elements with sizes {0,1,2}, counts 0..total+1, room {1,5}, other-vector shapes {[],[2],[1,0,2]}, sizes {0,1,2,3,SIZE_MAX}; the model is compared after every operation; distinct = (object kind, family of the earlier ops, full relation class of the last op as in target single)")
 #endif
